@@ -31,7 +31,14 @@ def main() -> int:
     except kf.HarnessLimit as e:
         print(f"HARNESS-LIMIT: {e}")
         return 3
-    except BaseException as e:  # an escaping exception is a failing run
+    except BaseException as e:  # an escaping exception is a failing run ...
+        tb = traceback.extract_tb(e.__traceback__)
+        inner = tb[-1].filename if tb else ""
+        if os.path.abspath(inner).startswith(ROOT + os.sep) and ".venv" not in inner:
+            # ... unless it was raised by the checking machinery itself (a bug in a harness is not a finding)
+            print(f"HARNESS-ERROR: {body['obligation']}({args}) raised {type(e).__name__}: {e} inside the harness ({inner}:{tb[-1].lineno})")
+            print(traceback.format_exc()[-1200:])
+            return 3
         print(f"REPRODUCED: {body['obligation']}({args}) raised {type(e).__name__}: {e}")
         print(traceback.format_exc()[-1200:])
         return 1
